@@ -394,6 +394,13 @@ func GenSchedule(r *rand.Rand, name string, cfg Cfg, o DriverOpts) Schedule {
 		case kHandleRace:
 			// an operator mutation through a second handle on the database, paused before its commit while a lease
 			// operation of the main handle starts (see Runner.handleRace)
+			if r.Intn(3) == 0 {
+				// two consumers, one per handle, poll at the same instant
+				d1 := Op{Op: "Dequeue", Rt: rrt(70), Tg: rtg(90), Batch: pick(r, 1, 2, 3, 5), TTL: pick(r, 20, 50)}
+				d2 := Op{Op: "Dequeue", Rt: rrt(70), Tg: rtg(90), Batch: pick(r, 1, 2, 3, 5), TTL: pick(r, 20, 50)}
+				ops = append(ops, Op{Op: "HandleRace", Inner: []Op{d1, d2}})
+				break
+			}
 			ls := make([]LeaseRef, 0, 3)
 			for i, n := 0, 1+r.Intn(3); i < n; i++ {
 				ls = append(ls, LeaseRef{Msg: rid()})
